@@ -16,6 +16,7 @@ ASSUMPTIONS = [
 ]
 SPEC = {
     'quick': [('K22', 'lend', 4),
+              ('K34', 'lend', 3),
               ('K30', 'lend', 4),
               ('K31', 'rb', 4),
               ('K7', 'lend', 4),
